@@ -179,6 +179,12 @@ class C05(Property):
             ["frobnicate"],
             [],
         ]
+        # near misses of a declared label in an Aspartix file: not an argument of the framework
+        for (apath, afmt, alabels, _aatts, _an) in [f for f in files if f[1] == "apx" and f[2]][:3]:
+            lab = alabels[0]
+            for bad in (lab + "x", lab[:-1] or "q", lab.swapcase() if lab.swapcase() != lab else lab + "_", " " + lab + "z"):
+                if bad not in alabels and bad.strip() not in alabels:
+                    errs.append(["solve", "-f", apath, "-r", "apx", "-p", "DC-CO", "-a", bad])
         for e in errs:
             cmd = [crust] + e
             if "--logging-level" not in e and e and e[0] == "solve":
